@@ -45,6 +45,13 @@ func (ro *Roles) defsReads(r *Report, rule string) {
 	}
 	add(listP, "the list of defined pipelines is reported as of now")
 	add(ro.Replace, "the reload itself")
+	// a read-only report of the runner (an exported method that changes nothing: read lock, own locals, logging) tells the
+	// definitions as of now, like the pipeline listing — it cannot make a job run with another definition
+	for _, g := range ro.rootFuncs() {
+		if _, listed := allowed[g]; !listed && g.Parent() == nil && g.Object() != nil && g.Object().Exported() && ro.readOnlyOperation(g, 0) {
+			add(g, "read-only report of the current definitions")
+		}
+	}
 	// a helper all of whose callers are allowed functions (or such helpers) reads on their behalf
 	var helperOfAllowed func(f *ssa.Function, d int) (*ssa.Function, string)
 	helperOfAllowed = func(f *ssa.Function, d int) (*ssa.Function, string) {
@@ -216,10 +223,16 @@ func (ro *Roles) reloadModset(r *Report, rule string) {
 				stored = true
 			case (e.Kind == "call" || e.Kind == "defer") && strings.Contains(e.Target, "sync.RWMutex)"):
 			case e.Kind == "store" && strings.HasPrefix(e.Target, "local"):
+			case e.Kind == "store" && strings.HasPrefix(e.Target, "recv.") && ro.bookkeepingField(strings.SplitN(strings.TrimPrefix(e.Target, "recv."), ".", 2)[0]):
+				// a counter / timestamp of the reload that only read-only reports look at
 			case e.Kind == "call" && e.Spliced:
 				// a spliced helper: its own effects follow on the path
 			case e.Kind == "call" && (e.Target == "len" || e.Target == "cap" || e.Callee != nil && w.pureFunc(e.Callee, 0)):
 				// a read-only helper (a count for a log line)
+			case e.Kind == "call" && e.Target == "append" && strings.HasPrefix(e.Val, "local"):
+				// building a local list for a log line
+			case e.Kind == "call" && (e.Target == "time.Now" || e.Target == "time.Since" || strings.HasPrefix(e.Target, "time.(Time).") || strings.HasPrefix(e.Target, "fmt.Sprint") || strings.HasPrefix(e.Target, "strings.") || e.Target == "sort.Strings"):
+				// reading the clock, formatting
 			default:
 				ok = false
 				detail = e.String()
@@ -665,4 +678,121 @@ func (w *World) ownSliceRec(v ssa.Value, seen map[ssa.Value]bool) bool {
 		}
 	}
 	return false
+}
+
+// readOnlyOperation: f changes nothing outside its own locals — stores only into local allocations, no map update, send, go or
+// select, defers only the release of the read lock, takes at most the read lock, and calls only builtins, logging, library
+// functions and module functions that are themselves read-only (or pure).
+func (ro *Roles) readOnlyOperation(f *ssa.Function, d int) bool {
+	w := ro.w
+	if f == nil || f.Blocks == nil || d > 3 {
+		return false
+	}
+	ok := true
+	allInstrs(f, func(in ssa.Instruction) {
+		switch x := in.(type) {
+		case *ssa.Store:
+			if _, isAlloc := w.resolveAddr(x.Addr).(*ssa.Alloc); isAlloc {
+				return
+			}
+			if fa, isFA := x.Addr.(*ssa.FieldAddr); isFA {
+				if _, baseAlloc := w.resolveAddr(fa.X).(*ssa.Alloc); baseAlloc {
+					return
+				}
+			}
+			if ia, isIA := x.Addr.(*ssa.IndexAddr); isIA {
+				if _, baseAlloc := w.resolveAddr(ia.X).(*ssa.Alloc); baseAlloc {
+					return
+				}
+				if w.ownSlice(ia.X, 0) {
+					return
+				}
+			}
+			ok = false
+		case *ssa.MapUpdate:
+			if _, isMake := w.Resolve(x.Map).(*ssa.MakeMap); !isMake {
+				ok = false
+			}
+		case *ssa.Send, *ssa.Go, *ssa.Select:
+			ok = false
+		case *ssa.Defer:
+			if op := ro.la.mxOp(&x.Call); op != "RUnlock" {
+				ok = false
+			}
+		case *ssa.Call:
+			if _, isB := x.Call.Value.(*ssa.Builtin); isB {
+				return
+			}
+			if op := ro.la.mxOp(&x.Call); op != "" {
+				if op != "RLock" && op != "RUnlock" {
+					ok = false
+				}
+				return
+			}
+			if isLogCall(&x.Call) {
+				return
+			}
+			g := x.Call.StaticCallee()
+			if g == nil {
+				if x.Call.IsInvoke() {
+					ok = false // an interface method of unknown effect (a store, a runner)
+				}
+				return
+			}
+			if w.InModule(g) && !w.pureFunc(g, 0) && !ro.readOnlyOperation(g, d+1) {
+				ok = false
+			}
+		}
+	})
+	return ok
+}
+
+// bookkeepingField: a field of the runner that is read only by read-only reports (and by the functions that write it): nothing
+// that decides about jobs looks at it.
+func (ro *Roles) bookkeepingField(name string) bool {
+	w := ro.w
+	if name == "" || name == "defs" || strings.Contains(name, "[") {
+		return false
+	}
+	isField := false
+	ok := true
+	for _, f := range w.ModFuncs {
+		reads, writes := false, false
+		allInstrs(f, func(in ssa.Instruction) {
+			fa, isFA := in.(*ssa.FieldAddr)
+			if !isFA || fieldNameOf(fa) != name {
+				return
+			}
+			if n := namedOf(fa.X.Type()); n == nil || n.Obj() != ro.la.runnerT.Obj() {
+				return
+			}
+			isField = true
+			if fa.Referrers() == nil {
+				return
+			}
+			for _, ref := range *fa.Referrers() {
+				switch y := ref.(type) {
+				case *ssa.Store:
+					if y.Addr == ssa.Value(fa) {
+						writes = true
+					} else {
+						reads = true
+					}
+				case *ssa.DebugRef:
+				default:
+					reads = true
+				}
+			}
+		})
+		if reads && !writes {
+			top := f
+			for top.Parent() != nil {
+				top = top.Parent()
+			}
+			if !ro.readOnlyOperation(top, 0) {
+				ok = false
+			}
+		}
+	}
+	return isField && ok
 }
